@@ -39,7 +39,7 @@ FutureDates(p, t) ==
            its == IF Periodic(p) THEN {k, k + 1} ELSE {0} IN
        { d \in { RAdd(base(j), p.pts[i].t) : j \in its, i \in 1..Len(p.pts) } : RLt(t, d) }
 HasNext(p, t) == FutureDates(p, t) # {}
-NextDate(p, t) == CHOOSE d \in FutureDates(p, t) : \A e \in FutureDates(p, t) : RLe(d, e)
+NextDate(p, t) == RSetMin(FutureDates(p, t))
 
 \* well-formedness
 WellFormed(p) ==
